@@ -73,12 +73,15 @@ def run_one(mu, props_filter):
             exp_ok = (exp is None) or any(exp in line for line in out.splitlines())
             if not (hit and rule_ok and exp_ok):
                 ok = False
-            results.append("%s: exit=%d hit=%s rule_ok=%s expect_ok=%s" % (p, c.returncode, hit, rule_ok, exp_ok))
+            import re as _re
+            fired = sorted(set(_re.findall(r"^\S+ ((?:R\d+\.\d+\w?|L\d)) \[", out, _re.M)))
+            mu.setdefault("_fired", {})[p] = fired
+            results.append("%s: exit=%d hit=%s rule_ok=%s expect_ok=%s fired=%s" % (p, c.returncode, hit, rule_ok, exp_ok, ",".join(fired)))
             if not hit or not rule_ok:
                 results.append("    " + "\n    ".join(out.splitlines()[-6:]))
         if not ok and mu.get("expected_miss"):
             return (name, "miss-ok", "documented limit: " + "; ".join(results)[:200])
-        return (name, "caught" if ok else "MISSED", "; ".join(results))
+        return (name, "caught" if ok else "MISSED", "; ".join(results), mu.get("_fired", {}))
     finally:
         shutil.rmtree(d, ignore_errors=True)
 
@@ -88,14 +91,18 @@ def main():
     ap.add_argument("-j", type=int, default=8)
     ap.add_argument("--props", default="")
     ap.add_argument("--json", default="")
+    ap.add_argument("--only-props", action="store_true", help="run only mutants that list one of --props (skip the others silently)")
     a = ap.parse_args()
     pf = set(x for x in a.props.split(",") if x)
     mus = [m for m in load_mutants() if a.k in m["name"]]
+    if a.only_props and pf:
+        mus = [m for m in mus if pf & set(m["props"])]
     res = []
     with concurrent.futures.ThreadPoolExecutor(max_workers=a.j) as ex:
         for r in ex.map(lambda m: run_one(m, pf), mus):
             res.append(r)
-            print("%-8s %-50s %s" % (r[1], r[0], r[2] if r[1] != "caught" else ""))
+            fired = r[3] if len(r) > 3 else {}
+            print("%-8s %-50s %s" % (r[1], r[0], r[2] if r[1] != "caught" else " ".join("%s:%s" % (k, "+".join(v)) for k, v in fired.items())))
     n = {k: sum(1 for r in res if r[1] == k) for k in ("caught", "MISSED", "miss-ok", "skipped", "broken")}
     print("selftest:", n)
     if a.json:
